@@ -161,6 +161,94 @@ def malform(rng, case, stats):
         stats['malformed_strand'] = stats.get('malformed_strand', 0) + 1
     return case
 
+NONASCII = ['\u00d8', '\u00e9', '\u00df', '\u4e2d', '\u03b1', '\u2192', '\U0001F9EC', '\u00fc']   # 2-, 3- and 4-byte UTF-8
+
+def nonascii_word(rng, n=None):
+    n = n or rng.randint(1, 4)
+    return ''.join(rng.choice(NONASCII + list('ABcd12')) for _ in range(n)) + rng.choice(NONASCII)
+
+def line_kind(l):
+    """(kind, key) of one line of OUR OWN GTF text: kind 0 comment, 1 gene record, 2 other record"""
+    if l.startswith('#'):
+        return 0, None
+    f = l.split('\t')
+    if f[2] == 'gene':
+        return 1, f[8].split('gene_id "', 1)[1].split('"', 1)[0]
+    return 2, f[8].split('transcript_id "', 1)[1].split('"', 1)[0]
+
+def text_variant(rng, case, stats, force=None):
+    """GTF TEXT layer: the same annotation written with non-ASCII characters (kept attribute gene_name,
+    dropped attributes, comment lines), CRLF / mixed line ends, comment lines between entities, very long
+    attribute columns, no newline after the last line.  `inside` (rare) additionally puts a comment line
+    INSIDE a transcript block: outside the precondition of theorem pointer_block, divergence is measured."""
+    world = case['world']
+    feats = force or [f for f, p in (('nonascii_name', 0.5), ('nonascii_attr', 0.4), ('nonascii_comment', 0.5),
+                                     ('crlf', 0.25), ('mixed_eol', 0.1), ('comments_between', 0.5), ('long_attr', 0.3),
+                                     ('no_final_newline', 0.3), ('inside', 0.06)) if rng.random() < p]
+    if not feats:
+        feats = ['nonascii_comment']
+    if 'nonascii_name' in feats and not case.get('gtf_lines'):
+        for g in world['genes']:
+            if rng.random() < 0.6:
+                g['name'] = g['name'] + nonascii_word(rng)
+    lines = case.get('gtf_lines') or G.gtf_lines(world)
+    out = []
+    inside = set()
+    def comment():
+        return '#' + rng.choice(['', '#', ' ']) + (nonascii_word(rng, 6) if 'nonascii_comment' in feats and rng.random() < 0.7 else 'comment %d' % rng.randint(0, 999))
+    if 'comments_between' in feats or 'nonascii_comment' in feats:
+        for _ in range(rng.randint(1, 3)):
+            out.append(comment())
+    long_left = rng.randint(1, 2) if 'long_attr' in feats else 0
+    first_of_block = True
+    for l in lines:
+        f = l.split('\t')
+        if f[2] in ('gene', 'transcript'):
+            if 'comments_between' in feats and rng.random() < 0.5:
+                for _ in range(rng.randint(1, 2)):
+                    out.append(comment())
+        elif 'inside' in feats and f[2] == 'exon' and rng.random() < 0.3:
+            out.append(comment())
+            inside.add(line_kind(l)[1])
+        if 'nonascii_attr' in feats and rng.random() < 0.3:
+            f[8] += ' note "%s";' % nonascii_word(rng, rng.randint(1, 12))
+        if long_left and rng.random() < 0.15:
+            long_left -= 1
+            filler = 'x' if rng.random() < 0.5 else rng.choice(NONASCII)
+            f[8] += ' ont "%s";' % (filler * rng.randint(2000, 30000))
+        out.append('\t'.join(f))
+    if 'comments_between' in feats and rng.random() < 0.5:
+        out.append(comment())
+    eol = '\r\n' if 'crlf' in feats else '\n'
+    text = ''
+    for i, l in enumerate(out):
+        e = rng.choice(['\n', '\r\n']) if 'mixed_eol' in feats else eol
+        if i == len(out) - 1 and 'no_final_newline' in feats:
+            e = ''
+        text += l + e
+    case['gtf_text'] = text
+    case['text_features'] = sorted(feats)
+    if inside:
+        case['inside_tx'] = sorted(inside)
+    for f in feats:
+        stats['text:' + f] = stats.get('text:' + f, 0) + 1
+    stats['text_cases'] = stats.get('text_cases', 0) + 1
+    return case
+
+def gtf_text_of(case):
+    if case.get('gtf_text') is not None:
+        return case['gtf_text']
+    lines = case.get('gtf_lines') or G.gtf_lines(case['world'])
+    return '\n'.join(lines) + '\n'
+
+def split_keepends(text):
+    """lines as the binary file iterator yields them: split after every \\n"""
+    parts = text.split('\n')
+    out = [p + '\n' for p in parts[:-1]]
+    if parts[-1] != '':
+        out.append(parts[-1])
+    return out
+
 def make_case(rng, stats, kind=None, limit=10):
     kind = kind or rng.choices(['small', 'many', 'normal'], [0.62, 0.28, 0.10])[0]
     wr = random.Random(rng.getrandbits(64))
@@ -185,6 +273,12 @@ def make_case(rng, stats, kind=None, limit=10):
         case['nonmember'] = [g1['id'], g2['transcripts'][0]['id']]
     if rng.random() < 0.12:
         malform(wr, case, stats)
+    if rng.random() < 0.35:
+        text_variant(wr, case, stats)
+    # every key once, in file order, on a fresh annotation of each kind (generate_index / idx files)
+    allk = [['g', k] for k in gkeys] + [['t', k] for k in tkeys]
+    case['hist']['all'] = allk
+    case['hist']['idx_all'] = list(reversed(allk))
     return case
 
 # ------------------------------------------------------------------ model side
@@ -266,6 +360,56 @@ def model_requests(case):
         reqs.append(('c11_gene2tx_many', [st1, g['start'], g['end'], 0, st2, t['exons'], list(range(*pos['gene'][gid]['i']))]))
         tags.append(('nonmember', None, None))
     return reqs, tags
+
+def pointer_request(case):
+    """the GTF text as (bytes, kind, key) lines for Model/GtfPtr.v"""
+    text = gtf_text_of(case)
+    keyidx = {}
+    lines = []
+    for l in split_keepends(text):
+        kind, key = line_kind(l)
+        if key is not None:
+            keyidx.setdefault((kind, key), len(keyidx) + 1)
+        lines.append([list(l.encode('utf-8')), kind, keyidx.get((kind, key), 0)])
+    names = {v: k[1] for k, v in keyidx.items()}
+    return ('c11_pointers', [lines]), names, lines
+
+def check_pointers(case, out, mres, names, plines, stats):
+    """idx files written by the implementation vs the proved byte accounting, and (declaratively) the
+    byte range of every entity = exactly its own lines"""
+    bad = []
+    mg, mt = {}, {}
+    for isg, key, st, en, txs in mres:
+        if isg:
+            mg[names[key]] = [st, en, sorted(names[x] for x in txs)]
+        else:
+            mt[names[key]] = [st, en]
+    ig = {k: [st, en, txs] for k, st, en, txs in out['idx']['g']}
+    it = {k: [st, en] for k, st, en, _ in out['idx']['t']}
+    stats['pointers'] = stats.get('pointers', 0) + len(ig) + len(it)
+    if ig != mg:
+        k = sorted(x for x in set(ig) | set(mg) if ig.get(x) != mg.get(x))[0]
+        bad.append(('model', 'gene pointer %s: idx file %r, byte accounting %r' % (k, ig.get(k), mg.get(k))))
+    if it != mt:
+        k = sorted(x for x in set(it) | set(mt) if it.get(x) != mt.get(x))[0]
+        bad.append(('model', 'transcript pointer %s: idx file %r, byte accounting %r' % (k, it.get(k), mt.get(k))))
+    # declarative: bytes [start, end) of the file are exactly the entity's lines
+    data = b''.join(bytes(l[0]) for l in plines)
+    own = {}
+    for b, kind, key in plines:
+        if kind:
+            own.setdefault((kind, names[key]), []).append(bytes(b))
+    inside = set(case.get('inside_tx', []))
+    for (kind, key), ls in own.items():
+        if kind == 2 and key in inside:
+            continue
+        p = (ig if kind == 1 else it).get(key)
+        if p is None:
+            bad.append(('stmt', 'no pointer for %s' % key))
+        elif data[p[0]:p[1]] != b''.join(ls):
+            bad.append(('stmt', 'pointer of %s = bytes [%d, %d) which hold %r..., not the entity\'s own %d line(s)' % (
+                key, p[0], p[1], data[p[0]:p[1]][:60], len(ls))))
+    return bad
 
 def cache_requests(case, sizes):
     """model traces of the two pointer dictionaries for every history (as written and repaired)"""
@@ -394,8 +538,8 @@ def expected_dump_checks(world, dump, skip_ids=()):
         d = dump['g'].get(gene['id'])
         if d is None or gene['id'] in skip_ids:
             continue
-        exp = [gene['chrom'], gene['start'], gene['end'], gene['strand'], sorted(t['id'] for t in gene['transcripts'])]
-        got = [d['chrom'], d['start'], d['end'], d['strand'], d['transcripts']]
+        exp = [gene['chrom'], gene['start'], gene['end'], gene['strand'], sorted(t['id'] for t in gene['transcripts']), gene['name']]
+        got = [d['chrom'], d['start'], d['end'], d['strand'], d['transcripts'], d['gene_name']]
         if exp != got:
             bad.append('gene %s parsed as %r, expected %r' % (gene['id'], got, exp))
         for tx in gene['transcripts']:
@@ -487,6 +631,12 @@ def compare_world(case, out, model, cmodel, stats):
                 k = [i for i, (a, b) in enumerate(zip(got, exp)) if a != b]
                 pr = case['pos'][kind][ident]['g' if fn in ('g2tx', 'exonic', 'g2gene') else 'i'][0]
                 corr_bad.append('%s %s %s at position %d: implementation %r, model %r' % (kind, ident, fn, pr + k[0], got[k[0]], exp[k[0]]))
+        elif kind == 'pointers':
+            pbad = check_pointers(case, out, m, ident, fn, stats)
+            for what in [w for h, w in pbad if h == 'stmt'][:2]:
+                viol('byte-range pointers: ' + what)
+            if pbad and not any(h == 'stmt' for h, _ in pbad):
+                corr_bad.append('pointer files: ' + pbad[0][1])
         elif kind == 'nonmember':
             if conv['nonmember'] != [dec(r) for r in m]:
                 corr_bad.append('gene2tx(non member): implementation %r model %r' % (conv['nonmember'][:3], [dec(r) for r in m][:3]))
@@ -508,6 +658,8 @@ def compare_world(case, out, model, cmodel, stats):
             else:
                 exp = ERRCLS[m[0]]
             for src, got in (('fully parsed', out['seqs']['tx'][ident]), ('on-disk', out['disk_seqs'][ident])):
+                if src == 'on-disk' and ident in case.get('inside_tx', []):
+                    continue
                 g3 = got if is_err(got) else {k: got[k] for k in ('seq', 'orf', 'sec')}
                 if loose:
                     if g3 != exp:
@@ -568,6 +720,19 @@ def compare_world(case, out, model, cmodel, stats):
                     res = full[which].get(names[val]) if code == 0 else 'E:KeyError'
                     o.append([res, [[names[x] for x in dq], sorted(names[x] for x in ck)]])
                 return o
+            inside = set(case.get('inside_tx', [])) if which == 't' else set()
+            if inside:
+                # comment lines inside a transcript block: outside the contiguity precondition; the loader
+                # diverges for those keys (measured), every other key must still be served correctly
+                div = sum(1 for k, r in sub if k in inside and r[0] != full[which].get(k))
+                stats['noncontiguous_divergence'] = stats.get('noncontiguous_divergence', 0) + div
+                stats['noncontiguous_accesses'] = stats.get('noncontiguous_accesses', 0) + sum(1 for k, r in sub if k in inside)
+                w2 = [(i, k, r[0]) for i, (k, r) in enumerate(sub) if k in valid and k not in inside and r[0] != full[which][k]]
+                if w2:
+                    i, k, r = w2[0]
+                    viol('on-disk annotation (%s, history %s): access #%d to key %s returned %s, the fully parsed model is %s' % (
+                        which, hname, i, k, r, full[which].get(k)))
+                continue
             got = [r for k, r in sub]
             as_written = conv_trace(tr)
             stats['evictions'] += sum(1 for a, b in zip(as_written, as_written[1:]) if len(b[1][0]) == len(a[1][0]) and b[1][0] != a[1][0])
@@ -640,6 +805,8 @@ def run_cases(ctx, cases, stats):
             c2 = {'world': c['world'], 'hist': {'bad': c['hist']}}
         else:
             r1, t1 = model_requests(c)
+            preq, pnames, plines = pointer_request(c)
+            r1.insert(0, preq); t1.insert(0, ('pointers', pnames, plines))
             c2 = c
         r2, t2 = cache_requests(c2, limits)
         spans.append((len(all_reqs), len(r1), t1, len(r2), t2))
@@ -746,6 +913,7 @@ def run(ctx):
     dist.update({'intron_1nt_edits': gstats.get('intron1', 0), 'exon_1nt_edits': gstats.get('exon1', 0),
                  'abutting_exon_edits': gstats.get('abutting', 0), 'malformed_strand_cases': gstats.get('malformed_strand', 0),
                  'malformed_frame_cases': gstats.get('malformed_frame', 0), 'corpus_cases': len(ccases)})
+    dist['generator'] = dict(gstats)
     dist.update(stats)
     return dict(evaluations=n, distinct_nontrivial=len(nontrivial),
                 rule='one evaluation = one generated annotation (genome + GTF + proteome) on which ALL conversions at ALL positions '
